@@ -116,7 +116,7 @@ def transfers(ctx, n):
                       out, case))
         if j == 0:
             ctx.sample({"transfer": {"case": case, "impl": out, "send_calls": rounds}})
-    bad = ctx.model_mismatches("run_transfer7", "(Z * Z * Z * Z * Z)", [(c, o) for c, o, _ in cases],
+    bad = c19.safe_mismatches(ctx, "run_transfer7", "(Z * Z * Z * Z * Z)", [(c, o) for c, o, _ in cases],
                                imports=IMPORTS + "\nDefinition run_transfer7 c := firstn 7 (run_transfer c).", shard=40)
     for i in bad[:3]:
         ctx.disagree("transfer (send/settle rounds) differs from the model", case=cases[i][2], impl=cases[i][1])
@@ -142,12 +142,13 @@ def run(ctx):
     histories(ctx, 110 * scale, codes=[None, None, 1, 1, 0, 2, 3, 4, 5], imports=IMPORTS, settle_end=True,
               coupled_p=0.85, label="history-ext", after=after)
     transfers(ctx, 30 * scale)
+    c19.blocked_runs(ctx)
     c19.live_runs(ctx, 2 * (3 if ctx.thorough else 1))
 
 
 def replay(ctx, rep):
     case = rep["case"]
-    if case.get("live"):
+    if case.get("live") or case.get("blocked"):
         return c19.replay(ctx, rep)
     if case.get("transfer"):
         pair, out, rounds = real_transfer(case["W"], case["P"], case["n"], case["code"], case["fuel"])
